@@ -332,3 +332,116 @@ class TokenPaths:
 
         rec(start, [], [], {})
         return out
+
+
+class KindDispatch:
+    """A routine that consumes one token (advance_with_pos / advance) and answers according to its kind, examined kind by kind
+    (29 cases) instead of through the shape of its `match`: the blocks that can run when the consumed token has kind K, the
+    provenance along them, and whether K is answered without an error.  Works the same for one big match, for helper lookups
+    before it (`comparator_of(&token)`), and for comparisons (`token == Token::X`)."""
+
+    def __init__(self, lib, body, table=None):
+        from .decision import Undecided, Walker
+        self.lib, self.b, self.table = lib, body, table or {}
+        self.o = Origins(body, lib)
+        self.blocks = {}
+        self.paths = {}
+        self.undecided = {}
+        b = body
+
+        # the token the routine dispatches on: the first one it consumes (later advance() calls inside an arm read closers)
+        firsts = [bb for bb, t in b.calls() if t["callee"] in (P + "advance_with_pos", P + "advance")]
+        first = min(firsts, key=lambda x: (len(b.dominators().get(x, ())), x)) if firsts else None
+        self.first_consume = first
+
+        def consumed(x):
+            while x[0] == "through":
+                x = x[2]
+            if x[0] == "field" and x[2] == "1" and x[1][0] == "call" and x[1][1] == P + "advance_with_pos":
+                return x[1][3] == first
+            return x[0] == "call" and x[1] == P + "advance" and x[3] == first
+        self.consumed = consumed
+
+        def promoted_token(idx):
+            pb = lib.promoted(b.deff, idx)
+            if pb is None:
+                return None
+            for _, _, st in pb.stmts(reachable_only=False):
+                if st["k"] == "assign" and st["rv"]["k"] == "agg" and st["rv"].get("adt") == TOKEN:
+                    return st["rv"]["variant"]
+            return None
+        for K in ALL_TOKENS:
+            def atom(t, K=K):
+                if t[0] == "discr" and consumed(t[1]):
+                    return K
+                return None
+
+            def call(t, argvals, K=K):
+                if t[1] == "lexer::Token::lbp" and t[2] and t[2][0] and self.table:
+                    vals = set()
+                    for x in t[2][0]:
+                        if consumed(x):
+                            vals.add(self.table.get(K))
+                        elif x[0] == "promoted":
+                            vals.add(self.table.get(promoted_token(x[1])))
+                        elif x[0] == "agg" and x[1].startswith(TOKEN + "::"):
+                            vals.add(self.table.get(x[1].split("::")[-1]))
+                        else:
+                            vals.add(None)
+                    return next(iter(vals)) if len(vals) == 1 else None
+                if t[1] in ("std::cmp::PartialEq::eq", "std::cmp::PartialEq::ne") and len(t[2]) == 2:
+                    sides = [set(a_) for a_ in t[2]]
+                    ck = [sd for sd in sides if sd and all(consumed(x) for x in sd)]
+                    pr = [sd for sd in sides if sd and all(x[0] == "promoted" for x in sd)]
+                    if len(ck) == 1 and len(pr) == 1:
+                        vs = {promoted_token(x[1]) for x in pr[0]}
+                        if len(vs) == 1 and None not in vs:
+                            r = int(next(iter(vs)) == K)
+                            return r if t[1].endswith("::eq") else 1 - r
+                return None
+            w = Walker(b, self.o, atom=atom, call=call, max_steps=8000, cut_loops=True)
+            try:
+                ps = w.walk()
+            except Undecided as e:
+                self.undecided[K] = str(e)
+                ps = []
+            self.paths[K] = ps
+            self.blocks[K] = set().union(*[set(p) for p, _ in ps]) if ps else set()
+            self.walker = w
+        live = [v for v in self.blocks.values() if v]
+        self.common = set.intersection(*live) if live else set()
+        self._origins = {}
+
+    def region(self, K):
+        """Blocks that run for kind K but not for every kind (the routine's own prologue is left out)."""
+        return self.blocks.get(K, set()) - self.common
+
+    def origins(self, K):
+        if K not in self._origins:
+            self._origins[K] = Origins(self.b, self.lib, only_blocks=self.blocks.get(K, set()))
+        return self._origins[K]
+
+    def accepts(self, K):
+        """Some path for kind K reaches a return without passing an error exit first."""
+        b = self.b
+        errb = set()
+        for x in sorted(b.reachable()):
+            for st in b.blocks[x]["stmts"]:
+                if st["k"] == "assign" and st["place"]["l"] == 0 and not st["place"]["p"] and \
+                        ((st["rv"]["k"] == "agg" and st["rv"].get("adt") == "std::result::Result" and st["rv"]["variant"] == "Err") or
+                         (st["rv"]["k"] == "through" and st["rv"].get("variant") == "Err")):
+                    errb.add(x)
+            tx = b.blocks[x]["term"]
+            if tx["k"] == "call" and tx["callee"] == "std::ops::FromResidual::from_residual" and tx["dest"]["l"] == 0 and not tx["dest"]["p"]:
+                errb.add(x)
+        for path, leaf in self.paths.get(K, []):
+            if b.blocks[path[-1]]["term"]["k"] == "return" and not (set(path) & errb):
+                return True
+            # a consumer call on the path before any error exit: the kind is being parsed further, i.e. answered
+            for x in path:
+                if x in errb:
+                    break
+                tx = b.blocks[x]["term"]
+                if tx["k"] == "call" and is_consumer(tx["callee"]) and x in self.region(K):
+                    return True
+        return False
